@@ -1,7 +1,7 @@
 """Ludp (UDP codec sub-check: C19, C05, C06, C07, C01, emitted checksum of C08) configuration for ./check"""
 CONF = {
     'coq_sample': 15,   # cases re-evaluated inside Coq by vm_compute against the extracted runner's output
-    'interesting': ['truncated-prefix-of-valid', 'length-extreme', 'residue-payload', 'odd-payload', 'dirty-buffer',
+    'interesting': ['truncated-prefix-of-valid', 'length-extreme', 'length-boundary', 'residue-payload', 'odd-payload', 'dirty-buffer',
                     'no-fixlengths', 'error-after-add', 'jumbo-length-0', 'big-payload', 'csum-ffff', 'csum-solved'],
     'rule': 'UDP datagrams built field by field by the harness (ports from the implementation\'s port table, boundary ports, random) '
             'decoded, serialized under all FixLengths/ComputeChecksums/buffer-kind combinations with IPv4, IPv6, v4-mapped, '
